@@ -14,15 +14,56 @@ class Arr(Model):
 
     @property
     def ndim(self):
-        return 2 if self.data and isinstance(self.data[0], list) else (2 if getattr(self, "_cols", None) is not None else 1)
+        n, d = 1, self.data
+        while d and isinstance(d[0], list):
+            n, d = n + 1, d[0]
+        return n
 
     def shape(self):
-        if self.ndim == 2:
-            return (len(self.data), len(self.data[0]) if self.data else (self._cols or 0))
-        return (len(self.data),)
+        out, d = [], self.data
+        while isinstance(d, list):
+            out.append(len(d))
+            d = d[0] if d else None
+        return tuple(out)
 
     def flat(self):
-        return [x for r in self.data for x in r] if self.ndim == 2 else list(self.data)
+        def rec(d):
+            for x in d:
+                if isinstance(x, list):
+                    yield from rec(x)
+                else:
+                    yield x
+        return list(rec(self.data))
+
+    @staticmethod
+    def build(flat, shape):
+        """nested lists of the given shape from a flat list"""
+        if len(shape) == 1:
+            return list(flat)
+        step = 1
+        for n in shape[1:]:
+            step *= n
+        return [Arr.build(flat[i * step:(i + 1) * step], shape[1:]) for i in range(shape[0])]
+
+    def reshape(self, ev, shape):
+        shape = [ev.index_int(x) for x in shape]
+        f = self.flat()
+        if not all(isinstance(x, int) for x in shape):
+            raise Unknown("reshape to a symbolic shape")
+        if shape.count(-1) == 1:
+            known = 1
+            for x in shape:
+                if x != -1:
+                    known *= x
+            if known == 0 or len(f) % known:
+                raise Raised("ValueError: cannot reshape array")
+            shape[shape.index(-1)] = len(f) // known
+        tot = 1
+        for x in shape:
+            tot *= x
+        if tot != len(f):
+            raise Raised("ValueError: cannot reshape array")
+        return Arr(Arr.build(f, shape))
 
     def __repr__(self):
         return "array(%r)" % (self.data,)
@@ -48,6 +89,8 @@ class Arr(Model):
             return Native("repeat", lambda ev_, a, k: ev_.hooks[("ext", "numpy.repeat")](ev_, [self] + list(a), k))
         if name == "cumsum":
             return Native("cumsum", lambda ev_, a, k: ev_.hooks[("ext", "numpy.cumsum")](ev_, [self], k))
+        if name == "reshape":
+            return Native("reshape", lambda ev_, a, k: self.reshape(ev_, a[0] if len(a) == 1 and isinstance(a[0], (tuple, list)) else a))
         if name == "shape":
             return self.shape()
         if name == "ndim":
@@ -106,17 +149,18 @@ class Arr(Model):
         raise Raised("ValueError: the truth value of an array with more than one element is ambiguous")
 
     def _map(self, fn):
-        if self.ndim == 2:
-            return Arr([[fn(x) for x in r] for r in self.data])
-        return Arr([fn(x) for x in self.data])
+        def rec(d):
+            return [rec(x) if isinstance(x, list) else fn(x) for x in d]
+        return Arr(rec(self.data))
 
     def _zip(self, other, fn):
         if isinstance(other, Arr):
             if other.shape() != self.shape():
                 raise Unknown("broadcasting of arrays of different shapes")
-            if self.ndim == 2:
-                return Arr([[fn(x, y) for x, y in zip(r, s)] for r, s in zip(self.data, other.data)])
-            return Arr([fn(x, y) for x, y in zip(self.data, other.data)])
+
+            def rec(d, e):
+                return [rec(x, y) if isinstance(x, list) else fn(x, y) for x, y in zip(d, e)]
+            return Arr(rec(self.data, other.data))
         return self._map(lambda x: fn(x, other))
 
     def hb_compare(self, ev, op, other, reflected):
@@ -152,8 +196,12 @@ def _sort(ev, arr, axis=-1):
     srt = lambda xs: E.BUILTINS["sorted"](ev, [xs], {})
     if arr.ndim == 1:
         return Arr(list(srt(arr.data)))
-    if axis in (1, -1):
-        return Arr([list(srt(r)) for r in arr.data])
+    if axis in (arr.ndim - 1, -1):
+        def rec(d):
+            return [rec(x) for x in d] if d and isinstance(d[0], list) else list(srt(d))
+        return Arr(rec(arr.data))
+    if arr.ndim != 2:
+        raise Unknown("np.sort axis")
     if axis == 0:
         cols = [list(srt(list(c))) for c in zip(*arr.data)]
         return Arr([list(r) for r in zip(*cols)])
@@ -162,15 +210,20 @@ def _sort(ev, arr, axis=-1):
 
 def _unique(ev, a, k):
     arr = to_arr(ev, a[0])
-    if any(k.get(x) for x in ("return_index", "return_inverse", "return_counts")):
+    if any(k.get(x) for x in ("return_inverse", "return_counts")):
         raise Unknown("np.unique with extra outputs")
     ax = k.get("axis")
     if arr.ndim == 2 and ax == 0:
-        rows = []
-        for r in arr.data:
+        rows, first = [], []
+        for i, r in enumerate(arr.data):
             if not any(ev.equal(tuple(r), tuple(q)) for q in rows):
                 rows.append(list(r))
-        return Arr([list(t) for t in E.BUILTINS["sorted"](ev, [[tuple(r) for r in rows]], {})])
+                first.append(i)
+        order = E.BUILTINS["sorted"](ev, [list(range(len(rows)))], {"key": Native("key", lambda ev_, b, kk: tuple(rows[b[0]]))})
+        u = Arr([list(rows[i]) for i in order])
+        return (u, Arr([first[i] for i in order])) if k.get("return_index") else u
+    if k.get("return_index"):
+        raise Unknown("np.unique(return_index) on a flat array")
     if ax is not None and arr.ndim == 2:
         raise Unknown("np.unique axis")
     vals = []
@@ -221,6 +274,47 @@ def hooks():
         if any(p.ndim != 2 for p in parts) or len({len(p.data) for p in parts}) != 1:
             raise Unknown("hstack")
         return Arr([sum((list(p.data[i]) for p in parts), []) for i in range(len(parts[0].data))])
+
+    def roll(ev, a, k):
+        arr = to_arr(ev, a[0])
+        sh = ev.index_int(a[1] if len(a) > 1 else k.get("shift"))
+        ax = k.get("axis", a[2] if len(a) > 2 else None)
+        if not isinstance(sh, int):
+            raise Unknown("np.roll by a symbolic shift")
+        rot = lambda xs: (xs[-sh % len(xs):] + xs[:-sh % len(xs)]) if xs else xs
+        if ax is None:
+            return Arr(Arr.build(rot(arr.flat()), list(arr.shape())))
+        ax = ax % arr.ndim
+
+        def rec(d, depth):
+            if depth == ax:
+                return rot(list(d))
+            return [rec(x, depth + 1) for x in d]
+        return Arr(rec(arr.data, 0))
+
+    def stack(ev, a, k):
+        parts = [to_arr(ev, x) for x in ev.iterate(a[0])]
+        if not parts or any(p_.shape() != parts[0].shape() for p_ in parts):
+            raise Unknown("np.stack of arrays of different shapes")
+        nd = parts[0].ndim
+        ax = k.get("axis", a[1] if len(a) > 1 else 0)
+        ax = ax % (nd + 1)
+
+        def rec(ds, depth):
+            if depth == ax:
+                return [(list(d) if isinstance(d, list) else d) for d in ds]
+            return [rec([d[i] for d in ds], depth + 1) for i in range(len(ds[0]))]
+        return Arr(rec([p_.data for p_ in parts], 0))
+
+    def ndim_(ev, a, k):
+        v = a[0]
+        if isinstance(v, Arr):
+            return v.ndim
+        if isinstance(v, (list, tuple)):
+            return to_arr(ev, v).ndim if len(v) else 1
+        if isinstance(v, (int, float)) or E.is_num(v):
+            return 0
+        raise Unknown("np.ndim of %r" % (v,))
 
     def arange(ev, a, k):
         xs = [ev.index_int(x) for x in a]
@@ -321,7 +415,8 @@ def hooks():
          ("ext", "numpy.unique"): _unique, ("ext", "numpy.where"): where,
          ("ext", "numpy.flatnonzero"): lambda ev, a, k: where(ev, [a[0]], {})[0], ("ext", "numpy.nonzero"): lambda ev, a, k: where(ev, [a[0]], {}),
          ("ext", "numpy.logical_and"): logical(lambda p, q: p and q), ("ext", "numpy.logical_or"): logical(lambda p, q: p or q),
-         ("ext", "numpy.logical_not"): logical(None), ("ext", "numpy.stack"): concat0_stack,
+         ("ext", "numpy.logical_not"): logical(None), ("ext", "numpy.stack"): stack, ("ext", "numpy.roll"): roll, ("ext", "numpy.ndim"): ndim_,
+         ("ext", "numpy.shape"): lambda ev, a, k: to_arr(ev, a[0]).shape(),
          ("ext", "numpy.append"): lambda ev, a, k: concat0(ev, [[a[0], a[1]]], k),
          ("ext", "numpy.empty"): lambda ev, a, k: (_ for _ in ()).throw(Unknown("np.empty (uninitialised array)"))}
     for n in ("any", "all", "max", "min", "sum"):
